@@ -57,6 +57,18 @@ Definition guards_list (g : guards) : list bool :=
    g_crv_okp g; g_p2c g; g_zlib g; g_eddsa g; g_kt7797 g; g_ek_default g; g_rec_header g;
    g_rec_claims g; g_use_str g].
 
+
+(* guards from a list of 19 booleans in the order of [guards_list] (missing = true) *)
+Definition guards_of (l : list bool) : guards :=
+  let n i := nth i l true in
+  {| g_dict_jws_compact := n 0%nat; g_dict_jwe_compact := n 1%nat; g_dict_jws_json := n 2%nat;
+     g_dict_7797_json := n 3%nat; g_dict_jwe_json := n 4%nat; g_crit := n 5%nat; g_enc_present := n 6%nat;
+     g_algstr_jwe := n 7%nat; g_algstr_jws := n 8%nat; g_crv_ec := n 9%nat; g_crv_okp := n 10%nat;
+     g_p2c := n 11%nat; g_zlib := n 12%nat; g_eddsa := n 13%nat; g_kt7797 := n 14%nat;
+     g_ek_default := n 15%nat; g_rec_header := n 16%nat; g_rec_claims := n 17%nat; g_use_str := n 18%nat |}.
+Lemma guards_of_list g : guards_of (guards_list g) = g.
+Proof. destruct g; reflexivity. Qed.
+
 (* ------------------------------------------------------------------ *)
 (* world: keys and registries                                          *)
 (* ------------------------------------------------------------------ *)
